@@ -3,6 +3,11 @@
 import json
 ALL = ["C%02d" % i for i in range(1, 21)]
 CHECKS = {
+ "C20": dict(
+   technique="bounded-exhaustive sweeps in child processes: all token sequences <=3/4 over Cedar policy and schema token alphabets spliced into 4-5 positions, all byte strings <=2 (quick: a stated cut), string-escape and extension-value strings, nesting generators to depth 48, every single (thorough: pairs of) structural mutation of 17 JSON seed documents, byte substitutions/deletions/prefixes of text and protobuf seeds, into 77 entry points; every Ok object continues down the whole pipeline and every error is rendered; oracle = returns and terminates",
+   text="Model checking in the small-scope sense for a safety property (no panic / abort / non-termination): the complete space of short inputs over small alphabets plus single-deviation mutations of valid documents is fed to every public entry point under catch_unwind in sharded child processes (so aborts and stack overflows are attributed to one input), every accepted object is pushed through print / to_json / to_pst / format / validate (strict, permissive, levels) / authorize / partial / TPE / batched / manifest / link / merge / protobuf, and every error or warning is rendered with Display, Debug, the miette graphical handler and ffi::DetailedError.",
+   note="Trusted base: the child-process watchdog (non-termination = >10 s CPU when re-run alone). Bounded sweep, not a fuzzer: inputs longer than the bounds appear only as mutations of seed documents; nesting depth <= 48 as the property states.",
+   design="§3 C20, §8"),
  "C14": dict(
    technique="bounded-exhaustive enumeration of (strictly valid policy set x partial view x consistent completion): partial views are obtained by erasing parts (principal/resource id, context, per-entity attrs/ancestors/tags/existence) of concrete environments; TPE by the real code; every concrete environment that the library's own consistency checks accept is a completion and is evaluated by the real concrete evaluator; permission queries compared with brute force",
    text="Model checking in the small-scope sense: for every policy set and every partial view of the bounded space, all consistent concrete completions are enumerated; definite decisions must equal the concrete decision on each, each residual policy must be satisfied/unsatisfied/erroring exactly when its original is, all views of the response (policies, policy_set, get_policy, residual_policies, reauthorize) must present the same residuals, and query_resource/query_principal/query_action must equal brute-force authorization over the store. Soundness of residual simplifications quantifies over completions, which shape assertions cannot discharge but enumeration can.",
